@@ -140,9 +140,25 @@ func (x *Exec) Verify(fn *ssa.Function, ct *Contract) (rep *FuncReport) {
 		args = append(args, v)
 		names[p.Name()] = v
 	}
+	var free []Value
+	for _, fv := range fn.FreeVars {
+		// captured variables are addresses of the enclosing function's locals
+		v := x.paramValue(st, fv.Name(), deref(fv.Type()))
+		switch pv := v.(type) {
+		case ObjV:
+			free = append(free, ObjV{Path: pv.Path, Ty: fv.Type()})
+		case PtrV:
+			c := x.newCell(st, pv, deref(fv.Type()))
+			free = append(free, PtrV{Cell: c})
+		default:
+			c := x.newCell(st, v, deref(fv.Type()))
+			free = append(free, PtrV{Cell: c})
+		}
+		names[fv.Name()] = free[len(free)-1]
+	}
 	x.entryNames = names
 	x.entry = st.Clone()
-	env := &cenv{x: x, st: st, old: x.entry, names: names, oldNames: names, pkg: fn.Pkg}
+	env := &cenv{x: x, st: st, old: x.entry, names: names, oldNames: names, pkg: pkgOf(fn)}
 	if ct != nil {
 		for _, cl := range ct.Of("let") {
 			sv, err := EvalSpec(cl.node, env, x.sigs, x.topLets)
@@ -166,7 +182,7 @@ func (x *Exec) Verify(fn *ssa.Function, ct *Contract) (rep *FuncReport) {
 	x.entry = st.Clone()
 	var outs []Outcome
 	if x.unverified == "" {
-		outs = x.execFunc(st, fn, args, nil, 0, true)
+		outs = x.execFunc(st, fn, args, free, 0, true)
 	}
 	if x.unverified == "" && ct != nil {
 		x.checkPosts(fn, ct, outs)
@@ -216,7 +232,7 @@ func (x *Exec) checkPosts(fn *ssa.Function, ct *Contract, outs []Outcome) {
 		}
 		nOK++
 		results := x.resultNames(fn, o.vals)
-		env := &cenv{x: x, st: o.st, old: x.entry, names: o.names, oldNames: x.entryNames, results: results, pkg: fn.Pkg}
+		env := &cenv{x: x, st: o.st, old: x.entry, names: o.names, oldNames: x.entryNames, results: results, pkg: pkgOf(fn)}
 		// success guard for frames and emits
 		okGuard := "true"
 		if ev, has := results["err"]; has {
@@ -470,4 +486,14 @@ func assignsText(ct *Contract) string {
 // walkContract: hook for invariant-based treatment of Map.Walk (see walk.go).
 func (x *Exec) walkContract(c *CallCtx, d collDesc, h int, fn *ssa.Function, free []Value) []Outcome {
 	return x.walkWithInvariant(c, d, h, fn, free)
+}
+
+func pkgOf(fn *ssa.Function) *ssa.Package {
+	for fn != nil {
+		if fn.Pkg != nil {
+			return fn.Pkg
+		}
+		fn = fn.Parent()
+	}
+	return nil
 }
